@@ -30,7 +30,7 @@ def main():
         try:
             for prop in m["props"]:
                 t = time.time()
-                env = dict(os.environ)
+                env = dict(os.environ, VERIF_NO_EVIDENCE="1")
                 r = run([str(ROOT / "check"), prop] + m.get("args", ["--max-cases", "24"]), env=env, cwd=str(ROOT))
                 verdict = "CAUGHT" if r.returncode == 1 and "VIOLATION" in r.stdout else ("INCONCLUSIVE" if r.returncode == 2 else "MISSED")
                 first = next((l for l in r.stdout.splitlines() if l.startswith(("VIOLATION", "INCONCLUSIVE"))), "")[:200]
